@@ -62,22 +62,26 @@ Theorem c03_server_single_status :
     hm_get_all t hdr_grpc_status = [cv].
 Proof. exact server_single_status_spec. Qed.
 
-(* client role: DATA chunks, then at most the error that ended the stream, and never a
-   trailers block however often the body is polled *)
+(* client role: the polls are [pre] followed by None only ([pre] has no None, so nothing hides
+   between two None), the frames are DATA chunks, then at most the error that ended the stream,
+   and never a trailers block however often the body is polled *)
 Theorem c03_client_no_trailers :
   forall (msg enc : Type) (ser : msg -> option (list N)) (compress : enc -> list N -> list N)
          (c : cfg enc) (src : list (sevent msg)) (extra : nat)
          (ms : list msg) (ps : list (list N)) (fin : option status),
   outcome ser compress c (items_of src) ms ps fin ->
-  exists ds,
-    frames_of (run_body msg enc ser compress c Client src extra) =
-      map FData ds ++ match fin with Some st => [FErr st] | None => [] end /\
+  exists pre k ds,
+    run_body msg enc ser compress c Client src extra = pre ++ repeat BNone (S k + extra) /\
+    ~ In BNone pre /\
+    frames_of pre = map FData ds ++ match fin with Some st => [FErr st] | None => [] end /\
     forall t, ~ In (BFrame (FTrailers t)) (run_body msg enc ser compress c Client src extra).
-Proof. exact client_no_trailers_spec. Qed.
+Proof. exact client_body_spec. Qed.
 
 (* request head (prepare_request): panics exactly for an origin http::Uri::from_parts refuses;
-   otherwise POST, HTTP/2, origin scheme/authority, target = origin path ++ method path (just
-   the method path when the origin has no path or "/"), te: trailers, content-type:
+   otherwise POST, HTTP/2, origin scheme/authority, the EXACT target [target_spec] (unfolded in
+   [c03_target_spec_unfolded]: with p = the origin's path-and-query cut at its first '?', the
+   method path when there is no path-and-query or p is empty or "/", otherwise p followed by the
+   method path, no slash removed or added), te: trailers, content-type:
    application/grpc, grpc-encoding = the chosen send encoding (with none chosen the name is not
    reserved and shows what the caller's metadata said), no grpc-status.
    response head (map_response / Status::into_http): HTTP 200 and content-type
@@ -88,11 +92,10 @@ Theorem c03_heads :
   match u_scheme origin, u_authority origin with
   | Some _, None | None, Some _ => prepare_request origin send accept md path = None
   | _, _ =>
-      exists r, prepare_request origin send accept md path = Some r /\
+      exists r target, prepare_request origin send accept md path = Some r /\
         rq_method r = val_POST /\ rq_version r = HTTP_2 /\
         u_scheme (rq_uri r) = u_scheme origin /\ u_authority (rq_uri r) = u_authority origin /\
-        (exists prefix, u_pq (rq_uri r) = Some (prefix ++ path) /\
-           (u_pq origin = None \/ u_pq origin = Some [47] -> prefix = [])) /\
+        u_pq (rq_uri r) = Some target /\ target_spec (u_pq origin) path target /\
         hm_get_all (rq_headers r) hdr_te = [val_trailers] /\
         hm_get_all (rq_headers r) hdr_content_type = [val_application_grpc] /\
         hm_get_all (rq_headers r) hdr_grpc_encoding =
@@ -116,6 +119,133 @@ Theorem c03_heads :
         hm_get_all (rs_headers r) hdr_grpc_status = [cv]
   end.
 Proof. exact heads. Qed.
+
+(* what [target_spec] says: with p = the origin's path-and-query up to its first '?', the target
+   is the method path when the origin has no path-and-query or p is empty or "/", and p ++ method
+   path otherwise.  F-C03b (fixed, ab6a0ca8): origin http://h/?q=1 used to give //p.S/M.
+   Pinned observation, not judged: a prefix with a trailing slash keeps it (/api//p.S/M). *)
+Theorem c03_target_spec_unfolded : forall origin_pq path target,
+  target_spec origin_pq path target <->
+  ((origin_pq = None -> target = path) /\
+   (forall pnq, origin_pq = Some pnq ->
+      exists p q, pnq = p ++ q /\ ~ In 63 p /\ (q = [] \/ exists q', q = 63 :: q') /\
+                  (p = [] \/ p = [47] -> target = path) /\
+                  (p <> [] -> p <> [47] -> target = p ++ path))).
+Proof. exact target_spec_unfolded. Qed.
+
+Example c03_target_root_with_query :     (* F-C03b: origin http://h/?q=1, method /p.S/M  =>  /p.S/M *)
+  option_map (fun r => u_pq (rq_uri r))
+    (prepare_request (mkUri (Some [104]) (Some [104]) (Some [47; 63; 113; 61; 49])) None [] []
+                     [47; 112; 46; 83; 47; 77]) = Some (Some [47; 112; 46; 83; 47; 77]).
+Proof. reflexivity. Qed.
+Example c03_target_trailing_slash :      (* origin http://h/api/, method /p.S/M  =>  /api//p.S/M *)
+  option_map (fun r => u_pq (rq_uri r))
+    (prepare_request (mkUri (Some [104]) (Some [104]) (Some [47; 97; 112; 105; 47])) None [] []
+                     [47; 112; 46; 83; 47; 77]) = Some (Some [47; 97; 112; 105; 47; 47; 112; 46; 83; 47; 77]).
+Proof. reflexivity. Qed.
+Example c03_target_plain :               (* origin http://h, method /p.S/M  =>  /p.S/M *)
+  option_map (fun r => u_pq (rq_uri r))
+    (prepare_request (mkUri (Some [104]) (Some [104]) (Some [47])) None [] []
+                     [47; 112; 46; 83; 47; 77]) = Some (Some [47; 112; 46; 83; 47; 77]).
+Proof. reflexivity. Qed.
+
+(* head and body of ONE call (M10): [client_call] / [server_call] return the head together with
+   the configuration of the EncodeBody built next to it (client::Grpc::streaming;
+   server::Grpc::{unary,client_streaming,server_streaming,streaming} incl. the negotiation from
+   grpc-accept-encoding, the rejection of an unsupported request encoding, the missing request
+   message, the per-response override that only the one-message shapes read).  Every server
+   response is HTTP 200 + content-type application/grpc and is either trailers-only (no body,
+   exactly one grpc-status in the headers) or has a body configured with the negotiated encoding,
+   the very one the head announces, and no grpc-status in the head *)
+Theorem c03_server_call_link : forall sv sh rh has_msg hr r oc,
+  server_call sv sh rh has_msg hr = Some (r, oc) ->
+  rs_status r = 200 /\
+  hm_get_all (rs_headers r) hdr_content_type = [val_application_grpc] /\
+  match oc with
+  | None => rs_body r = false /\ exists cv, hm_get_all (rs_headers r) hdr_grpc_status = [cv]
+  | Some c =>
+      rs_body r = true /\ hm_get_all (rs_headers r) hdr_grpc_status = [] /\
+      max c = sv_max sv /\
+      comp c = from_accept_encoding_header (hm_get rh hdr_grpc_accept_encoding) (sv_send sv) /\
+      match eff_comp c with
+      | Some e => hm_get_all (rs_headers r) hdr_grpc_encoding = [enc_name e]
+      | None => flag_of c = 0
+      end
+  end.
+Proof. exact server_call_link. Qed.
+
+Theorem c03_client_call_link : forall cl md path h c,
+  client_call cl md path = Some (h, c) ->
+  prepare_request (cl_origin cl) (cl_send cl) (cl_accept cl) md path = Some h /\
+  comp c = cl_send cl /\ override_disable c = false /\ max c = cl_max cl /\
+  match eff_comp c with
+  | Some e => hm_get_all (rq_headers h) hdr_grpc_encoding = [enc_name e]
+  | None => flag_of c = 0
+  end.
+Proof. exact client_call_link. Qed.
+
+(* what a tonic Channel adds in front of the connection (AddOrigin, UserAgent) changes nothing
+   C03 speaks about: only scheme/authority (the endpoint's) and user-agent *)
+Theorem c03_channel_layers : forall origin custom tonic_ua r,
+  match u_scheme origin, u_authority origin with
+  | Some sc, Some au =>
+      exists r', channel_request origin custom tonic_ua r = ChOk r' /\
+        rq_method r' = rq_method r /\ rq_version r' = rq_version r /\
+        u_pq (rq_uri r') = u_pq (rq_uri r) /\
+        u_scheme (rq_uri r') = Some sc /\ u_authority (rq_uri r') = Some au /\
+        (forall k, bytes_eqb hdr_user_agent k = false ->
+                   hm_get_all (rq_headers r') k = hm_get_all (rq_headers r) k) /\
+        hm_get_all (rq_headers r') hdr_user_agent =
+          [match custom with Some c => c ++ [32] ++ tonic_ua | None => tonic_ua end]
+  | _, _ => channel_request origin custom tonic_ua r = ChErr
+  end.
+Proof. exact channel_keeps_head. Qed.
+
+(* the property's sentence for a whole call: the body of the call parses under the independent
+   grammar to the encoded messages and each payload is the codec's serialization, compressed -
+   with the grpc-encoding announced by the head of the SAME call - exactly when the flag is 1 *)
+Theorem c03_server_call_conformant :
+  forall (msg : Type) (ser : msg -> option (list N)) (compress : cenc -> list N -> list N)
+         sv sh rh has_msg hr r c (src : list (sevent msg)) extra ms ps fin,
+  server_call sv sh rh has_msg hr = Some (r, Some c) ->
+  outcome ser compress c (items_of src) ms ps fin ->
+  spec_body (concat (datas_of (frames_of (run_body msg cenc ser compress c Server src extra)))) =
+    Some (map (pair (flag_of c)) ps) /\
+  Forall2 (fun m p => exists s, ser m = Some s /\
+     ((flag_of c = 1 /\ exists e, hm_get_all (rs_headers r) hdr_grpc_encoding = [enc_name e] /\
+                                  p = compress e s) \/
+      (flag_of c = 0 /\ p = s))) ms ps.
+Proof. exact server_call_conformant. Qed.
+
+Theorem c03_client_call_conformant :
+  forall (msg : Type) (ser : msg -> option (list N)) (compress : cenc -> list N -> list N)
+         cl md path h c (src : list (sevent msg)) extra ms ps fin,
+  client_call cl md path = Some (h, c) ->
+  outcome ser compress c (items_of src) ms ps fin ->
+  spec_body (concat (datas_of (frames_of (run_body msg cenc ser compress c Client src extra)))) =
+    Some (map (pair (flag_of c)) ps) /\
+  Forall2 (fun m p => exists s, ser m = Some s /\
+     ((flag_of c = 1 /\ exists e, hm_get_all (rq_headers h) hdr_grpc_encoding = [enc_name e] /\
+                                  p = compress e s) \/
+      (flag_of c = 0 /\ p = s))) ms ps.
+Proof. exact client_call_conformant. Qed.
+
+(* Body::is_end_stream (M3): false before the first poll; never true for a client body; for a
+   server body the first true answer comes with the poll that hands out the trailers; after any
+   true answer every poll answers None - a consumer (hyper) that stops polling as soon as
+   is_end_stream() is true has received every frame the body will ever produce.
+   [run_body_es] = [run_body] with the is_end_stream() answer after each poll. *)
+Theorem c03_is_end_stream_safe :
+  forall (msg enc : Type) (ser : msg -> option (list N)) (compress : enc -> list N -> list N)
+         (c : cfg enc) (r : role) (src : list (sevent msg)) (extra : nat),
+  body_is_end_stream (body_init r) = false /\
+  (r = Client -> Forall (fun x => snd x = false) (run_body_es msg enc ser compress c r src extra)) /\
+  forall pre o rest,
+    run_body_es msg enc ser compress c r src extra = pre ++ (o, true) :: rest ->
+    rest = repeat (BNone, true) (length rest) /\
+    frames_of (map fst (pre ++ [(o, true)])) = frames_of (run_body msg enc ser compress c r src extra) /\
+    (Forall (fun x => snd x = false) pre -> r = Server /\ exists st, o = BFrame (trailers_frame st)).
+Proof. exact is_end_stream_safe. Qed.
 
 (* the panic sites of the encoder (the division in compress - F-C01a -, the usize subtraction in
    finish_encoding) are explicit outcomes of the model and are never reached *)
@@ -166,6 +296,10 @@ Print Assumptions c03_server_single_status.
 Print Assumptions c03_client_no_trailers.
 Print Assumptions c03_heads.
 Print Assumptions c03_encoder_never_panics.
+Print Assumptions c03_server_call_link.
+Print Assumptions c03_server_call_conformant.
+Print Assumptions c03_client_call_conformant.
+Print Assumptions c03_is_end_stream_safe.
 
 (* the constants written by hand in the model equal the ones regenerated from the Rust source
    (Gen/ConstTables.v, rewritten by rs2v on every run) *)
